@@ -101,6 +101,67 @@ def iter_cases(spec):
         yield "r%d" % i, rng, gen.gen_program(rng)
 
 
+def run_examples_under_monitor(spec, acc, judge_record, draws=0):
+    """The shipped examples (realistic model shapes) run with the boundary monitor on; the record of the LAST solve of
+    each call is handed to judge_record(acc, rec, value, mode) while the model is still the live one."""
+    import contextlib
+    import importlib
+    import inspect
+    import io
+    import random
+    import warnings
+    from pv.monitors import is_optimal_status
+    from pv.ref import examples_table as ET
+    bd = driver.boundary()
+    bd.default_solver = "CLARABEL"
+    try:
+        for i, e in enumerate(ET.EXAMPLES):
+            if i % NSHARDS != spec.get("shard", 0):
+                continue
+            for k in range(draws + 1):
+                rng = random.Random("exmon/%d/%s/%d" % (spec.get("seed", 0), e["name"], k))
+                kw = dict(e["base"]) if k == 0 else e["gen"](rng)
+                fn = getattr(importlib.import_module(e["module"]), e["func"])
+                params = inspect.signature(fn).parameters
+                extra = {a: b for a, b in (("wrapper", "cvxpy"), ("solver", "CLARABEL"), ("verbose", -1)) if a in params}
+                n0 = len(bd.records)
+                try:
+                    with contextlib.redirect_stdout(io.StringIO()), warnings.catch_warnings():
+                        warnings.simplefilter("ignore")
+                        fn(**kw, **extra)
+                except Exception as ex:
+                    acc.count("example_exceptions:" + type(ex).__name__)
+                    continue
+                recs = bd.records[n0:]
+                if not recs:
+                    continue
+                rec = recs[-1]
+                sts = [str(x["status"]).lower() for x in rec["inner"]]
+                if "ret" not in rec or rec["ret"] is None or not sts or not all(is_optimal_status(s_) for s_ in sts):
+                    acc.count("examples_skipped_not_optimal")
+                    continue
+                mode = rec["opts"].get("return_primal_or_dual", "dual")
+                try:
+                    findings = judge_record(acc, rec, rec["ret"], mode)
+                except Exception as ex:
+                    acc.count("oracle_errors")
+                    acc.observations.append("example %s: oracle error %r" % (e["name"], ex))
+                    continue
+                acc.count("examples_judged")
+                acc.count("decided")
+                acc.signatures.add("example|%s|%d" % (e["name"], k))
+                for f in findings:
+                    if f["grade"] == "violated":
+                        acc.count("violated_items")
+                        if len(acc.violations) < 12:
+                            acc.violations.append({"key": f["key"], "what": "example %s(%s): %s" % (e["func"], kw, f["what"]),
+                                                   "example": e["name"], "kwargs": kw, "finding": f})
+                    else:
+                        acc.count("marginal_items")
+    finally:
+        bd.default_solver = None
+
+
 def run_generic(spec, judge, config_fn=None, max_viol=8, on_undecidable=None):
     """judge(acc, case, prog, cfg, rng) -> list of findings (dict with key/what/grade)."""
     acc = Acc()
